@@ -127,6 +127,14 @@ theorem bind_eq_ok {α β} {r : P α} {g : α → P β} {z : β} (h : (r >>= g) 
   | err => cases h
   | panic => cases h
 
+theorem ite_err_ok {α} {c : Prop} [Decidable c] {a b : α}
+    (h : (if c then (.err : P α) else .ok a) = .ok b) : ¬ c ∧ a = b := by
+  split at h
+  · cases h
+  · rename_i hc
+    simp only [P.ok.injEq] at h
+    exact ⟨hc, h⟩
+
 theorem err_of_not_ok {bytes : List Nat} (h : ∀ z, parse bytes ≠ .ok z) : parse bytes = .err := by
   have np := post_np (post_parse bytes)
   cases hp : parse bytes with
@@ -168,8 +176,10 @@ theorem trunc_cases (p q : List Nat) (z : Zone) (hq : q ≠ []) (h : parse (p ++
       | ok y =>
         obtain ⟨st2, c2⟩ := y
         have hfull2 := rel_state_new q c1 false st2 c2 hS2
-        right
-        exact ⟨st2, c2, by simp [parseBlocks, hS, hv, hS2], by simp [parseBlocks, hfull, hv, hfull2]⟩
+        by_cases hne : st2.header.version = .V2
+        · right
+          exact ⟨st2, c2, by simp [parseBlocks, hS, hv, hS2, hne], by simp [parseBlocks, hfull, hv, hfull2, hne]⟩
+        · left; simp [parse, parseBlocks, hS, hv, hS2, hne]
     | V3 =>
       cases hS2 : State.new c1 false with
       | err => left; simp [parse, parseBlocks, hS, hv, hS2]
@@ -177,8 +187,10 @@ theorem trunc_cases (p q : List Nat) (z : Zone) (hq : q ≠ []) (h : parse (p ++
       | ok y =>
         obtain ⟨st2, c2⟩ := y
         have hfull2 := rel_state_new q c1 false st2 c2 hS2
-        right
-        exact ⟨st2, c2, by simp [parseBlocks, hS, hv, hS2], by simp [parseBlocks, hfull, hv, hfull2]⟩
+        by_cases hne : st2.header.version = .V3
+        · right
+          exact ⟨st2, c2, by simp [parseBlocks, hS, hv, hS2, hne], by simp [parseBlocks, hfull, hv, hfull2, hne]⟩
+        · left; simp [parse, parseBlocks, hS, hv, hS2, hne]
 
 theorem parse_of_blocks {bytes : List Nat} {st : State} {fo : Option (List Nat)}
     (h : parseBlocks bytes = .ok (st, fo)) : parse bytes = parseRest st fo := by
